@@ -18,7 +18,7 @@ func init() { core.Register(c06{}) }
 func (c06) ID() string    { return "C06" }
 func (c06) Level() string { return "exploration" }
 func (c06) Rule() string {
-	return "seeded populations of 3..25 providers over the palette (several types per interface, several interfaces per type, named/unnamed, lazy/eager, with/without the func-tag methods) + consumers of every field kind {*T, I, []*T, []I, any, []any} carrying wire:\"\" / func:\"M\" / func:\"M,returns=a b\" / returns=* (optional or required); consumers are palette nodes (per-instance dynamic tags, may themselves be candidates) and reflect.StructOf holders (literal tags). Each scenario is started under 4 registration x enumeration x candidate orders. Oracle: reference model (set comprehension over the registered population) vs. black-box observation, per point: single point inside tied(S), slice == S exactly once each, never the holder, start fails iff a certainly-created component has a required point with S empty. non-trivial = some point with >= 2 candidates; distinct = canonical scenario signature; zero-size providers (distinct stateless components of several types) and wire tags whose placeholder resolves to the empty name (by-type points) take part; providers that are not pointers to structs take part; required slice points pre-populated before the start; funcPointers family (func points on *T / []*T over unnamed + named instances of T)"
+	return "seeded populations of 3..25 providers over the palette (several types per interface, several interfaces per type, named/unnamed, lazy/eager, with/without the func-tag methods) + consumers of every field kind {*T, I, []*T, []I, any, []any} carrying wire:\"\" / func:\"M\" / func:\"M,returns=a b\" / returns=* (optional or required); consumers are palette nodes (per-instance dynamic tags, may themselves be candidates) and reflect.StructOf holders (literal tags). Each scenario is started under 4 registration x enumeration x candidate orders. Oracle: reference model (set comprehension over the registered population) vs. black-box observation, per point: single point inside tied(S), slice == S exactly once each, never the holder, start fails iff a certainly-created component has a required point with S empty. non-trivial = some point with >= 2 candidates; distinct = canonical scenario signature; zero-size providers (distinct stateless components of several types) and wire tags whose placeholder resolves to the empty name (by-type points) take part; providers that are not pointers to structs take part; required slice points pre-populated before the start; funcPointers family (func points on *T / []*T over unnamed + named instances of T); contributedProviders family (definitions contributed by a factory post-processor through get-or-register / RegisterMeta); argMethods family (requested methods that take parameters)"
 }
 func (c06) Assumptions() []string {
 	return []string{
@@ -75,6 +75,151 @@ func (p c06) anonymous(c *core.Ctx) {
 	c.Nontrivial("anonymous|" + g.Sc.GraphSig())
 }
 
+// contributedProviders: providers whose definitions a factory post-processor contributes programmatically
+// (get-or-register, or a definition it built itself handed over with RegisterMeta) are candidates of by-type
+// points like every registered component.
+func (p c06) contributedProviders(c *core.Ctx) {
+	g := world.NewG(c.Rng)
+	var ias []string
+	for x := 0; x < 1+c.Rng.Intn(3); x++ {
+		k := g.AddNode([]int{0, 1, 6, 12}[c.Rng.Intn(4)], g.FreshName(x)) // IAs that are no IBs
+		ias = append(ias, g.Sc.Nodes[k].DisplayName())
+	}
+	for x := 0; x < c.Rng.Intn(3); x++ {
+		g.AddNode([]int{2, 13}[c.Rng.Intn(2)], g.FreshName(10+x)) // IBs that are no IAs
+	}
+	g.ShuffleOrders()
+	var contributed []world.Node
+	for x := 0; x < 1+c.Rng.Intn(2); x++ {
+		n := world.Palette[[]int{0, 1, 12}[c.Rng.Intn(3)]].New()
+		n.Core().Name = fmt.Sprintf("contributed-%d", x)
+		contributed = append(contributed, n)
+		ias = append(ias, n.Core().Name)
+	}
+	reg := &world.RegistrarPP{Nodes: contributed, ViaRegisterMeta: c.Rng.Intn(3) > 0}
+	h := world.NewHolder(world.BuildStruct([]world.FieldSpec{
+		{Name: "All", Type: reflect.SliceOf(world.TypeIA), Tag: `wire:""`},
+		{Name: "One", Type: world.TypeIA, Tag: `wire:"contributed-0"`},
+		{Name: "Any", Type: reflect.SliceOf(world.TypeAny), Tag: `wire:",required=false"`},
+	}))
+	r := world.Start(g.Sc, world.Options{Extra: []any{h, reg}})
+	c.Count("starts", 1)
+	c.Count("starts_with_programmatically_contributed_providers", 1)
+	detail := failDetail(g.Sc, r, map[string]any{"contributed": len(contributed), "via_register_meta": reg.ViaRegisterMeta})
+	if r.Outcome() != "ok" {
+		c.Fail("", "holder over registered and contributed providers did not start: "+core.Short(r.OutcomeDetail(), 300), detail)
+		return
+	}
+	hv := reflect.ValueOf(h).Elem()
+	got := map[string]int{}
+	for i := 0; i < hv.Field(0).Len(); i++ {
+		if n, ok := hv.Field(0).Index(i).Interface().(world.Node); ok {
+			got[n.DisplayName()]++
+		} else {
+			got[fmt.Sprintf("%T", hv.Field(0).Index(i).Interface())]++
+		}
+	}
+	for _, nm := range ias {
+		if got[nm] != 1 {
+			c.Fail("", fmt.Sprintf("[]IA `wire:\"\"` contains provider %q %d time(s) (providers: %v, received: %v); contributed via RegisterMeta: %v", nm, got[nm], ias, got, reg.ViaRegisterMeta), detail)
+			return
+		}
+	}
+	if len(got) != len(ias) {
+		c.Fail("", fmt.Sprintf("[]IA `wire:\"\"` received %v, the IA providers are %v", got, ias), detail)
+		return
+	}
+	if hv.Field(1).Interface() != any(contributed[0]) {
+		c.Fail("", fmt.Sprintf("IA `wire:\"contributed-0\"` holds %v, expected the contributed provider", hv.Field(1).Interface()), detail)
+		return
+	}
+	seen := 0
+	for i := 0; i < hv.Field(2).Len(); i++ {
+		for _, cn := range contributed {
+			if hv.Field(2).Index(i).Interface() == any(cn) {
+				seen++
+			}
+		}
+	}
+	if seen != len(contributed) {
+		c.Fail("", fmt.Sprintf("[]any point contains %d of the %d contributed providers", seen, len(contributed)), detail)
+		return
+	}
+	c.Nontrivial("contributed|" + g.Sc.GraphSig() + fmt.Sprint(len(contributed), reg.ViaRegisterMeta))
+}
+
+// argMethods: providers whose requested method takes parameters expose that method all the same: they are
+// candidates of `func:"M"` points and of `returns=*` points (which only ask for the method's existence).
+func (p c06) argMethods(c *core.Ctx) {
+	g := world.NewG(c.Rng)
+	var marks, kinds []any
+	for x := 0; x < c.Rng.Intn(3); x++ {
+		g.AddNode(4, g.FreshName(x)) // T04: Mark()
+	}
+	for x := 0; x < c.Rng.Intn(3); x++ {
+		k := g.AddNode([]int{5, 13}[c.Rng.Intn(2)], g.FreshName(5+x)) // Kind() string
+		g.Sc.Nodes[k].Kind = kindPool[c.Rng.Intn(len(kindPool))]
+	}
+	for x := 0; x < c.Rng.Intn(3); x++ {
+		g.AddNode([]int{0, 2}[c.Rng.Intn(2)], g.FreshName(10+x)) // neither
+	}
+	g.ShuffleOrders()
+	var extra []any
+	if c.Rng.Intn(4) > 0 {
+		a := &world.ArgMark1{Nm: "arg-mark-1"}
+		extra, marks = append(extra, a), append(marks, a)
+	}
+	if c.Rng.Intn(2) == 0 {
+		a := &world.ArgMark2{Nm: "arg-mark-2"}
+		extra, marks = append(extra, a), append(marks, a)
+	}
+	if c.Rng.Intn(2) == 0 {
+		a := &world.ArgKind{Nm: "arg-kind"}
+		extra, kinds = append(extra, a), append(kinds, a)
+	}
+	h := world.NewHolder(world.BuildStruct([]world.FieldSpec{
+		{Name: "Marked", Type: reflect.SliceOf(world.TypeAny), Tag: `func:"Mark,required=false"`},
+		{Name: "Kinded", Type: reflect.SliceOf(world.TypeAny), Tag: `func:"Kind,returns=*,required=false"`},
+	}))
+	r := world.Start(g.Sc, world.Options{Extra: append([]any{h}, extra...)})
+	c.Count("starts", 1)
+	c.Count("starts_with_parameterised_func_methods", 1)
+	detail := failDetail(g.Sc, r, map[string]any{"providers_with_parameterised_methods": fmt.Sprint(len(marks), len(kinds))})
+	if r.Outcome() != "ok" {
+		c.Fail("", "holder with func points over providers whose methods take parameters did not start: "+core.Short(r.OutcomeDetail(), 300), detail)
+		return
+	}
+	for i, n := range r.Nodes {
+		ti := world.Palette[g.Sc.Nodes[i].Type]
+		if ti.Mark {
+			marks = append(marks, n)
+		}
+		if ti.Kind {
+			kinds = append(kinds, n)
+		}
+	}
+	hv := reflect.ValueOf(h).Elem()
+	for fi, want := range [][]any{marks, kinds} {
+		seen := map[any]int{}
+		for i := 0; i < hv.Field(fi).Len(); i++ {
+			seen[hv.Field(fi).Index(i).Interface()]++
+		}
+		for _, w := range want {
+			if seen[w] != 1 {
+				c.Fail("", fmt.Sprintf("field %s `%s`: provider %T (%v) which exposes the method is contained %d time(s); the point holds %d of %d providers", hv.Type().Field(fi).Name, hv.Type().Field(fi).Tag, w, world.Describe([]any{w})[0].Name, seen[w], hv.Field(fi).Len(), len(want)), detail)
+				return
+			}
+		}
+		if hv.Field(fi).Len() != len(want) {
+			c.Fail("", fmt.Sprintf("field %s `%s` holds %d objects, %d providers expose the method", hv.Type().Field(fi).Name, hv.Type().Field(fi).Tag, hv.Field(fi).Len(), len(want)), detail)
+			return
+		}
+	}
+	if len(marks)+len(kinds) >= 2 {
+		c.Nontrivial("argmethods|" + g.Sc.GraphSig() + fmt.Sprint(len(marks), len(kinds)))
+	}
+}
+
 // funcPointers: func points on concretely typed fields (*T, []*T) over a population that mixes an unnamed
 // instance of T with named ones: the slice receives every instance exposing the method (with a matching
 // result), the single point one of them per the ranking.
@@ -127,6 +272,14 @@ func (p c06) Run(c *core.Ctx) {
 	}
 	if c.Index%25 == 19 {
 		p.funcPointers(c)
+		return
+	}
+	if c.Index%25 == 14 {
+		p.contributedProviders(c)
+		return
+	}
+	if c.Index%25 == 4 {
+		p.argMethods(c)
 		return
 	}
 	mix := TagMix{ByType: 3, Func: 1.2, POptional: 0.45}
